@@ -784,3 +784,13 @@ def _s_shard_map(prim, invals, params):
             parts = [to_obj(q) for q in parts]
         res.append(np.concatenate(parts, axis=0) if sharded(spec) else parts[0])
     return res
+
+
+@rule("unstack")
+def _unstack(a, axis, **k):
+    a = to_obj(a)
+    outs = []
+    for i in range(a.shape[axis]):
+        p = np.take(a, i, axis=axis)
+        outs.append(p if isinstance(p, np.ndarray) else _scalar_arr(p))
+    return outs
